@@ -25,6 +25,18 @@ def read_all(arg: str, extra: int = 2):
     return True, out
 
 
+def documented(arg: str):
+    """the argument read as text (what C01 promises): its lines, numbered, then two end-of-file tokens"""
+    ls = arg.split("\n")
+    ls = [x + "\n" for x in ls[:-1]] + ([ls[-1]] if ls[-1] else [])
+    return True, [[False, l, k + 1] for k, l in enumerate(ls)] + [[True, "", len(ls) + 1], [True, "", len(ls) + 2]]
+
+
+def acceptable_anyway(b) -> bool:
+    """inside the class of the recorded C01 finding the documented behaviour is, of course, acceptable too (a repaired scanner must not raise an alarm)"""
+    return bool(b["known"]) and b["kind"] == "arg" and tuple(b["impl"]) == documented(b["arg"])
+
+
 def model_check_and_replay(max_len: int, timeout=1200):
     with Scratch("scanner") as sc:
         sc.write("MC_Scanner.cfg", f"SPECIFICATION Spec\nCONSTANT MaxLen = {max_len}\nCONSTRAINT Emit\nINVARIANT Inv_Machine\nINVARIANT Inv_Partition\nINVARIANT Inv_NumbersCountOn\n"
